@@ -24,8 +24,8 @@ using sim::Rng;
 
 namespace {
 
-enum OpKind : uint16_t { kValidStep, kCall, kBadBind, kBadAlign, kBadEmbedLabel, kBadEmbedDelta, kBadSection, kBadNamedLabel, kBadEmbedArray, kA64Form, kOpCount };
-const char* const kOpNames[kOpCount] = {"valid_step", "call", "bad_bind", "bad_align", "bad_embed_label", "bad_embed_label_delta", "bad_section", "bad_named_label", "bad_embed_array", "a64_form"};
+enum OpKind : uint16_t { kValidStep, kCall, kBadBind, kBadAlign, kBadEmbedLabel, kBadEmbedDelta, kBadSection, kBadNamedLabel, kBadEmbedArray, kA64Form, kX86ShortJump, kOpCount };
+const char* const kOpNames[kOpCount] = {"valid_step", "call", "bad_bind", "bad_align", "bad_embed_label", "bad_embed_label_delta", "bad_section", "bad_named_label", "bad_embed_array", "a64_form", "x86_short_jump"};
 const char* op_name(uint16_t k) { return k < kOpCount ? kOpNames[k] : "?"; }
 
 enum HandlerMode { kHandlerNone = 0, kHandlerRecording, kHandlerThrowing, kHandlerModeCount };
@@ -391,7 +391,38 @@ CallResult perform(Subject& s, const gen::Program& prog, const Op& op, bool* mus
         if (l.is_valid()) s.labels.made.push_back(l);
         break;
       }
-      case kBadEmbedArray: { uint64_t d[2] = {1, 2}; *must_fail_out = true; s.last_must_fail_other = true; r.err = e.embed_data_array(TypeId(uint32_t(200 + op.a[0] % 50)), d, 2, 1); break; }
+      case kBadEmbedArray: {
+        // an invalid type id, or a size computation (items * item size * repeat) that does not fit into size_t
+        uint64_t d[2] = {1, 2}; *must_fail_out = true; s.last_must_fail_other = true;
+        switch (op.a[2] % 5) {
+          case 1: r.err = e.embed_data_array(TypeId::kUInt64, d, SIZE_MAX / 8 + 2, 1); break;
+          case 2: r.err = e.embed_data_array(TypeId::kUInt32, d, SIZE_MAX / 4 + 2, 3); break;
+          case 3: r.err = e.embed_data_array(TypeId::kUInt16, d, SIZE_MAX / 2 + 1, 1 + size_t(op.a[0] % 2)); break;
+          case 4: r.err = e.embed_data_array(TypeId::kUInt8, d, 4, SIZE_MAX / 2 - size_t(op.a[0] % 7)); break;
+          default: r.err = e.embed_data_array(TypeId(uint32_t(200 + op.a[0] % 50)), d, 2, 1); break;
+        }
+        break;
+      }
+      case kX86ShortJump: {
+        // instructions that only have (or are forced into) the rel8 form: onto a label that is bound too far away they
+        // cannot be encoded
+        if (s.target == gen::Target::kA64) break;
+        Label l = note_label(select_label(s.labels, op.a[1], s.code), s.code);
+        if (!s.code.is_label_valid(l)) invalid_label_ref = true;
+        else if (s.emitter_kind == 0 && s.code.is_label_bound(l)) {
+          BaseAssembler& as = static_cast<BaseAssembler&>(e);
+          const LabelEntry& le = s.code.label_entry_of(l);
+          if (le.section_id() == as.current_section()->section_id()) {
+            int64_t dist = int64_t(le.offset()) - int64_t(as.offset());
+            if (dist > 140 || dist < -135) { *must_fail_out = true; s.last_must_fail_other = true; sim::count("c14.probe.rel8_only_jump_too_far"); }
+          }
+        }
+        static const uint32_t ids[] = {x86::Inst::kIdJecxz, x86::Inst::kIdLoop, x86::Inst::kIdLoope, x86::Inst::kIdLoopne};
+        uint32_t which = uint32_t(op.a[0] % 6);
+        if (which < 4) r.err = e.emit(ids[which], x86::ecx, l);
+        else { e.set_inst_options(InstOptions::kShortForm); r.err = e.emit(which == 4 ? x86::Inst::kIdJmp : x86::Inst::kIdJz, l); }
+        break;
+      }
       default: break;
     }
   }
@@ -449,7 +480,7 @@ void execute(const Plan& plan) {
         if (hm != kHandlerNone && op.kind != kBadNamedLabel && op.kind != kBadSection) {
           if (r.handler_calls == 0) sim::count("c14.probe.error_without_handler_call"); else if (r.handler_calls > 1) sim::count("c14.probe.handler_called_more_than_once");
           // The statement requires the error to be reported through the return value AND the attached handler.
-          if (op.kind == kCall || op.kind == kA64Form || op.kind == kValidStep) SIM_CHECK(r.handler_calls >= 1, "c14:error-not-reported-to-handler", "%s returned error %u but the attached error handler was never invoked", op_name(op.kind), unsigned(r.err));
+          if (op.kind == kCall || op.kind == kA64Form || op.kind == kX86ShortJump || op.kind == kValidStep) SIM_CHECK(r.handler_calls >= 1, "c14:error-not-reported-to-handler", "%s returned error %u but the attached error handler was never invoked", op_name(op.kind), unsigned(r.err));
         }
       }
       else {
@@ -597,8 +628,9 @@ Plan generate(uint64_t seed, bool thorough) {
         op.a[3] = int64_t(r.below(2));
       }
       else {
-        static const uint16_t ks[] = {kBadBind, kBadAlign, kBadEmbedLabel, kBadEmbedDelta, kBadSection, kBadNamedLabel, kBadEmbedArray};
+        static const uint16_t ks[] = {kBadBind, kBadAlign, kBadEmbedLabel, kBadEmbedDelta, kBadSection, kBadNamedLabel, kBadEmbedArray, kX86ShortJump};
         op.kind = r.pick(ks);
+        if (op.kind == kX86ShortJump && target == 2) op.kind = kBadAlign;
         op.a[0] = r.chance(1, 2) ? int64_t(r.below(8)) : -int64_t(1 + r.below(8)); op.a[1] = r.chance(1, 2) ? int64_t(r.below(8)) : -int64_t(1 + r.below(8)); op.a[2] = int64_t(r.below(100));
         if (op.kind == kBadAlign || op.kind == kBadEmbedArray || op.kind == kBadNamedLabel) op.a[0] = int64_t(r.below(1000));
         if (op.kind == kBadEmbedLabel) op.a[1] = int64_t(r.below(1000));
